@@ -20,9 +20,24 @@ class ZDirCase(PD.DirCase):
 def coq_case(cs, o):
     return "(ZDCase %s %s)" % (coqbool(cs.from_prox), PD.coq_case(cs, o))
 
+def observe(ctx, cs, o):
+    """measured, not judged: ZeroFPR with update_direction_in_candidate AND update_direction_from_prox_step.  The in-line-search call of
+    direction.update uses the prox-step pair (x̂ₖ -> x_next, p̂ₖ, ∇ψ(x̂ₖ)) also when the candidate IS the safe step (τ = 0: x_next = x̂ₖ, s = 0, y = 0),
+    unlike the call after the search (guarded by τ > 0).  LBFGSDirection rejects that pair, StructuredLBFGSDirection (forced update) stores it and
+    its next apply returns NaN -> lbfgs_failures, reset: in both cases no accelerated step is taken until a step-size change or a failing candidate
+    diverts the update to the after-search call site (the model reproduces this exactly; counted here, reported to the coordinator)."""
+    if "exc" in o or cs.direction not in ("lbfgs", "struclbfgs") or not (cs.P_("upd") and cs.from_prox):
+        return
+    busy = [r for r in o["records"] if r["status"] == "Busy"]
+    if len(busy) < 3:
+        return
+    ctx.coverage["in_candidate_from_prox_runs"] = ctx.coverage.get("in_candidate_from_prox_runs", 0) + 1
+    if any(sl.D(r, "tau") > 0 for r in busy):
+        ctx.coverage["in_candidate_from_prox_runs_with_an_accelerated_step"] = ctx.coverage.get("in_candidate_from_prox_runs_with_an_accelerated_step", 0) + 1
+
 REQUIRES = "Prox SolverStatus SolverKernels AugLag Lbfgs LMQR Panoc ZeroFpr Corr_PANOC Directions PanocDir Corr_PANOCDIR ZeroFprDir Corr_ZEROFPRDIR"
 FLAVOR = dict(name="ZEROFPRDIR", solver="ZeroFPRSolver", model="ZeroFprDir.zerofprD", files="ZeroFprDir.v + Directions.v", requires=REQUIRES, casetype="zdcase",
-              chk="chkzfprdir", dump="modelzfprdir", conv=(lambda ctx, cs: ZDirCase(cs, ctx.rng.random() < (0.6 if cs.tag.endswith("/gamma") else 0.35))), term=coq_case, key="zerofprdir")
+              chk="chkzfprdir", dump="modelzfprdir", conv=(lambda ctx, cs: ZDirCase(cs, ctx.rng.random() < (0.6 if cs.tag.endswith("/gamma") else 0.35))), term=coq_case, key="zerofprdir", observe=observe)
 
 def run(ctx):
     ctx.coverage["rule"] = ("whole runs of the real ZeroFPRSolver with the four shipped direction providers, generators of the PANOCDIR check (drv_solve problem family, "
